@@ -6,7 +6,6 @@ package disk
 // lru.go code.
 
 import (
-	"container/list"
 
 	"github.com/buchgr/bazel-remote/v2/cache"
 	"github.com/buchgr/bazel-remote/v2/zzverif/vsym"
@@ -49,14 +48,11 @@ type vState struct {
 // recently used (list front), entry n-1 the least recently used.
 func vPre(n int) *vState {
 	st := &vState{n: n}
-	c := &SizedLRU{
-		ll:                  list.New(),
-		cache:               make(map[interface{}]*list.Element),
-		queuedEvictionsChan: make(chan []*entry, 1),
-	}
+	maxSize := vsym.Int64("max")
+	// NewSizedLRU only so that the metric fields are non-nil in native replays
+	l := NewSizedLRU(maxSize, func(k string, v lruItem) { st.evicted = append(st.evicted, vEv{k, v}) }, 0)
+	c := &l
 	st.c = c
-	c.onEvict = func(k string, v lruItem) { st.evicted = append(st.evicted, vEv{k, v}) }
-	c.maxSize = vsym.Int64("max")
 	vsym.Assume(c.maxSize > 0)
 	vsym.Assume(c.maxSize < vmaxSz)
 	st.items = make([]lruItem, n)
